@@ -31,6 +31,7 @@ var netErr = errors.New("connection dropped")
 
 // wireMode: the next scenario reaches the mock coordinator through real *Conn objects (byte-level path)
 var wireMode bool
+var seenBody = map[string]bool{}
 
 // ---------------------------------------------------------------- scenario state
 
@@ -54,6 +55,7 @@ type scenario struct {
 	fns     []*userFn
 	nextRes chan nextResult
 	nextOut bool
+	assignOnly string // when set, SyncGroup assigns partitions of this topic only
 	wire    bool
 	member  int
 	cgID    string
@@ -150,8 +152,11 @@ func (s *scenario) okReply(c kafka.VerifCoordCall) kafka.VerifCoordReply {
 	case "syncGroup":
 		a := map[string][]int32{}
 		for _, t := range s.topics {
+			if s.assignOnly != "" && t != s.assignOnly {
+				continue
+			}
 			for i := 0; i < s.parts[t]; i++ {
-				if s.rng.Intn(3) > 0 {
+				if s.assignOnly != "" || s.rng.Intn(3) > 0 {
 					a[t] = append(a[t], int32(i))
 				}
 			}
@@ -434,6 +439,7 @@ func boolTok(s string) string {
 
 func canon(evs []kafka.VerifEvent, topics []string, wire bool) (string, map[string]int) {
 	pendRet := map[string][]string{}
+	nGens := 0
 	var wireRets [][]string
 	genIdx := map[string]int{}
 	connGen := map[string]int{} // connection id -> generation index
@@ -532,7 +538,8 @@ func canon(evs []kafka.VerifEvent, topics []string, wire bool) (string, map[stri
 				}
 			}
 		case "G.New":
-			genIdx[a[1]] = len(genIdx)
+			genIdx[a[1]] = nGens // a new identity at every creation event (the recorder's ids are addresses and can be reused)
+			nGens++
 			connGen[lastJoinConn] = genIdx[a[1]]
 			add(fmt.Sprintf("gNew:%s:%s:%s", gi(a[1]), a[2], gm.Mem(a[3])))
 		case "H.Start":
@@ -605,6 +612,12 @@ func (s *scenario) emit(name string) {
 		tr = "nextCall"
 	}
 	fmt.Fprintf(out, "trace %d %s\t%s\n", s.nWatch, tr, st)
+	for _, l := range s.mock.TakeBodies() {
+		if strings.HasPrefix(l, "wirereq ") && !seenBody[l] {
+			seenBody[l] = true
+			fmt.Fprintln(out, l)
+		}
+	}
 	_ = name
 }
 
@@ -704,8 +717,11 @@ func scenarioD9(rng *rand.Rand) {
 
 // scenarioCauses: each end cause in turn on a fresh generation, with two application functions observing the ctx.
 func scenarioCauses(rng *rand.Rand, cause int) {
-	watch := cause == 2 || cause == 3 || cause == 6
+	watch := cause == 2 || cause == 3 || cause == 6 || cause == 7
 	s := newScenario(rng, []string{"t", "u"}, watch, 0)
+	if cause == 7 {
+		s.assignOnly = "t"
+	}
 	s.start(2*time.Millisecond, 2*time.Millisecond, 5*time.Millisecond)
 	s.callNext()
 	okJoin := s.joinAsFollower()
@@ -732,6 +748,15 @@ func scenarioCauses(rng *rand.Rand, cause int) {
 			close(s.fns[0].release)
 		case 5: // Close
 			s.callClose()
+		case 7: // the partition count of a configured topic that is NOT in this member's assignment changes
+			s.parts["u"]++
+			if p := s.mock.Await(func(p *gm.Pending) bool {
+				return p.Call.Method == "readPartitions" && len(p.Call.Topics) == 1 && p.Call.Topics[0] == "u"
+			}, 300*time.Millisecond); p != nil {
+				s.mock.Answer(p, s.okReply(p.Call))
+			} else {
+				s.fail("no-watcher-for-unassigned-topic")
+			}
 		case 6: // a watched topic is deleted: the poll answers UnknownTopicOrPartition (count N -> 0)
 			s.ok("readPartitions")
 			s.answer("readPartitions", withErr(kerr(3)))
@@ -840,7 +865,7 @@ func main() {
 	if only == "" || only == "scripted" {
 		scenarioD8(rng)
 		scenarioD9(rng)
-		for c := 0; c < 7; c++ {
+		for c := 0; c < 8; c++ {
 			scenarioCauses(rng, c)
 		}
 		scenarioBackoff(rng)
